@@ -43,6 +43,26 @@ type Prim struct {
 	R, G, B, W [2]float32 // chromaticities as float32 (what the API takes)
 	WY         float32    `json:"white_luminance,omitempty"`    // luminance of the white point (0 means 1)
 	PY         [3]float32 `json:"primary_luminances,omitempty"` // luminance fields passed with the three primaries (0 means 1); only their chromaticities matter
+	// After > 0: the case directly follows request number After-1 of outside(): collinear or coincident primaries,
+	// a chromaticity with y = 0, non-finite values, a singular or NaN matrix to invert - answers (and panics) ignored
+	After int `json:"after,omitempty"`
+}
+
+func outside(i int) {
+	nan := float32(math.NaN())
+	sets := [][4]ciexyy.Color{
+		{{X: 0.2, Y: 0.2, YY: 1}, {X: 0.3, Y: 0.3, YY: 1}, {X: 0.4, Y: 0.4, YY: 1}, ciexyy.D65},       // collinear
+		{{X: 0.64, Y: 0.33, YY: 1}, {X: 0.64, Y: 0.33, YY: 1}, {X: 0.15, Y: 0.06, YY: 1}, ciexyy.D65}, // coincident
+		{{X: 0.64, Y: 0, YY: 1}, {X: 0.3, Y: 0.6, YY: 1}, {X: 0.15, Y: 0.06, YY: 1}, ciexyy.D50},      // y = 0
+		{{X: nan, Y: 0.33, YY: 1}, {X: 0.3, Y: 0.6, YY: 1}, {X: 0.15, Y: 0.06, YY: 1}, ciexyy.D50},
+		{{X: 0.64, Y: 0.33, YY: 1}, {X: 0.3, Y: 0.6, YY: 1}, {X: 0.15, Y: 0.06, YY: 1}, {X: 0.3, Y: 0, YY: 1}},
+		{{}, {}, {}, {}},
+	}
+	q := sets[i%len(sets)]
+	ev.Guard(func() { ciexyz.TransformToXYZForXYYPrimaries(q[0], q[1], q[2], q[3]) })
+	ev.Guard(func() { ciexyz.TransformFromXYZForXYYPrimaries(q[0], q[1], q[2], q[3]) })
+	ms := []matrix.Matrix3{{}, {{1, 2, 3}, {2, 4, 6}, {0, 1, 0}}, {{math.NaN(), 0, 0}, {0, 1, 0}, {0, 0, 1}}, {{math.Inf(1), 0, 0}, {0, 1, 0}, {0, 0, 1}}, {{1e-200, 0, 0}, {0, 1e-200, 0}, {0, 0, 1e-200}}}
+	ev.Guard(func() { ms[i%len(ms)].Inverse() })
 }
 
 func (p Prim) prim(i int) ciexyy.Color {
@@ -65,7 +85,8 @@ type MatCase struct {
 	// Exp10: the matrices A and B (and V) are multiplied by 10^Exp10 before the call, so that well-conditioned
 	// matrices of very small or very large magnitude are covered (the oracle is relative)
 	Exp10 int           `json:"exp10,omitempty"`
-	A     [3][3]float64 `json:"a"` // row-major
+	After int           `json:"after,omitempty"` // as Prim.After
+	A     [3][3]float64 `json:"a"`               // row-major
 	B     [3][3]float64 `json:"b,omitempty"`
 	V     [3]float64    `json:"v,omitempty"`
 }
@@ -98,6 +119,9 @@ func xyY(c [2]float32) ciexyy.Color { return ciexyy.Color{X: c[0], Y: c[1], YY: 
 func refXY(c [2]float32) ref.XY     { return ref.XY{X: float64(c[0]), Y: float64(c[1])} }
 
 func checkPrim(p Prim) (kind, what string, cond float64) {
+	if p.After > 0 {
+		outside(p.After - 1)
+	}
 	var to, from matrix.Matrix3
 	if pn, msg := ev.Guard(func() {
 		w := xyY(p.W)
@@ -165,6 +189,9 @@ func relClose(a, b, scale float64) bool {
 }
 
 func checkMat(c MatCase) (kind, what string) {
+	if c.After > 0 {
+		outside(c.After - 1)
+	}
 	if c.Exp10 != 0 {
 		f := math.Pow(10, float64(c.Exp10))
 		for i := range c.A {
@@ -275,7 +302,7 @@ func TestC20(t *testing.T) {
 		fmt.Println("REPLAY case passed")
 		return
 	}
-	ev.Rule("(a) 20 published RGB spaces; (b) rapid triangles inside the chromaticity diagram with area >= 0.01 (a third with primaries sharing coordinates exactly) and every ordered lattice triangle of a 5x5 (thorough 8x8) grid, and white = barycentric mix with weights >= 0.05; (c) rapid 3x3 matrices with entries in [-4,4], |det| >= 1e-3; (d) exactly singular small-integer matrices (zero/repeated column or row, integer linear dependence). non-trivial = generated triangle (not a built-in space) or matrix with condition number > 10")
+	ev.Rule("(a) 20 published RGB spaces; (b) rapid triangles inside the chromaticity diagram with area >= 0.01 (a third with primaries sharing coordinates exactly) and every ordered lattice triangle of a 5x5 (thorough 8x8) grid, and white = barycentric mix with weights >= 0.05; (c) rapid 3x3 matrices with entries in [-4,4], |det| >= 1e-3; (d) exactly singular small-integer matrices (zero/repeated column or row, integer linear dependence). an eighth of the rapid cases directly follow a request outside the domain (non-finite or degenerate arguments) whose answer is ignored. non-trivial = generated triangle (not a built-in space) or matrix with condition number > 10")
 	ev.Assume("internal/ref row-major Gauss-Jordan algebra")
 	for _, p := range append(append([]Prim(nil), published...), Prim{Name: "sRGB, white Y=5e-4", R: published[0].R, G: published[0].G, B: published[0].B, W: published[0].W, WY: 5e-4},
 		Prim{Name: "sRGB primaries given with their own luminances", R: published[0].R, G: published[0].G, B: published[0].B, W: published[0].W, PY: [3]float32{0.2126, 0.7152, 0.0722}},
@@ -397,6 +424,9 @@ func TestC20(t *testing.T) {
 				p.WY = float32(math.Pow(10, rapid.Float64Range(-20, 8).Draw(rt, "wyexp")))
 			}
 		}
+		if rapid.IntRange(0, 7).Draw(rt, "afteroutside") == 0 {
+			p.After = rapid.IntRange(1, 30).Draw(rt, "outside")
+		}
 		ev.Eval(1)
 		ev.NT(ev.Hash("tri", p))
 		if len(earlyPrim) < 400 {
@@ -466,6 +496,9 @@ func TestC20(t *testing.T) {
 			for i := range c.V {
 				c.V[i] = rapid.Float64Range(-4, 4).Draw(rt, "v")
 			}
+		}
+		if rapid.IntRange(0, 7).Draw(rt, "afteroutside") == 0 {
+			c.After = rapid.IntRange(1, 30).Draw(rt, "outside")
 		}
 		ev.Eval(1)
 		if cd := ref.M3(c.A).Cond(); cd > 10 {
